@@ -421,7 +421,7 @@ def run(ctx):
                 if why is None and not (res == nested and nested == res):
                     why = "Python == says the mappings differ"
                 if why:
-                    rp2 = dict(rp, observed=repr(res), expected=nsrc, difference=why,
+                    rp2 = dict(rp, observed=common.srepr(res), expected=nsrc, difference=why,
                                theorem_or_suite="C18 oracle: rollout(flatten(m)) == m")
                     ctx.violation("rollout(flatten(m)) differs from m: " + why, rp2)
             # already nested input: identity (needs separator-free keys, which hyp + unambiguity give
@@ -453,7 +453,7 @@ def run(ctx):
                         why = "Python == says the mappings differ"
                     if why:
                         ctx.violation("rollout of an already nested mapping is not the identity: " + why,
-                                      dict(rpn, observed=repr(res2), expected=nsrc, difference=why,
+                                      dict(rpn, observed=common.srepr(res2), expected=nsrc, difference=why,
                                            theorem_or_suite="C18 oracle: nested identity"))
 
     for _ in range(n_tree):
